@@ -17,7 +17,7 @@ func (*C16) ID() string     { return "C16" }
 func (*C16) Level() string  { return "exploration" }
 func (*C16) Engine() string { return "HIST" }
 func (*C16) Rule() string {
-	return "the simulated clock is the only clock logg reads: start instants from year 0001 to 9999 with arbitrary sub-second part, zones UTC / fixed offsets up to +-14h / named zones, time.Local varied, forward and backward jumps between calls; all 8 date/time/microseconds flag sets x local-time flag x UTC mode {unset, false, true} x layouts {unset, RFC3339Nano, Kitchen, RFC1123Z, date-only, custom with literal text} x 3 formats; records through ordinary verbs (instant = the clock read of that call) and WriteThru (explicit instant); the printed text must equal the instant, moved to the zone the statement gives, formatted with the logger layout or with the exported layout constant whose fields match the flags; distinct = (flag set, mode, layout, zone class, format, entry); non-trivial = every case (each is a distinct configuration cell)"
+	return "the simulated clock is the only clock logg reads: start instants from year 0001 to 9999 with arbitrary sub-second part, zones UTC / fixed offsets up to +-14h / named zones, time.Local varied, forward and backward jumps between calls; all 8 date/time/microseconds flag sets x local-time flag x UTC mode {unset, false, true} x layouts {unset, RFC3339Nano, Kitchen, RFC1123Z, date-only, custom with literal text} x 3 formats; records through ordinary verbs (instant = the clock read of that call) and WriteThru (explicit instant); the printed text must equal the instant, moved to the zone the statement gives, formatted with the logger layout or with the layout the flags select - which is recovered, after every change of the flags, from what a calibration logger prints for Go's reference time (no layout text is taken from logg's source), must be the same for every logger and format, must show date / time of day / microseconds as the flags say wherever the flag names leave no doubt, and must show the zone whenever it shows a time of day; distinct = (flag set, mode, layout, zone class, format, entry); non-trivial = every case (each is a distinct configuration cell)"
 }
 
 func (*C16) Plan(tier string) orch.Plan {
@@ -32,16 +32,93 @@ var c16Layouts = []string{"", "", time.RFC3339Nano, time.Kitchen, time.RFC1123Z,
 
 var c16Zones = []string{"UTC", "+08:00", "-03:30", "+14:00", "-12:00", "+05:45", "America/New_York", "Europe/Berlin", "Asia/Kolkata", "Australia/Lord_Howe"}
 
-// the exported layout constants of package slog (cvt.go) plus the date-only form
-var c16Exported = []struct {
-	layout             string
-	date, clock, micro bool
-}{
-	{"15:04:05Z07:00", false, true, false},                 // TimeNoNano
-	{"15:04:05.000000Z07:00", false, true, true},           // TimeNano
-	{"2006-01-0215:04:05Z07:00", true, true, false},        // DateTime
-	{"2006-01-02T15:04:05.000000Z07:00", true, true, true}, // RFC3339Nano
-	{"2006-01-02", true, false, false},                     // date only
+// Calibration instants: the layout the flags select is not taken from logg's source. It is
+// recovered from what logg prints for Go's reference time (whose rendering under a layout is
+// that layout, up to the Z-versus-numeric zone form and the 0-versus-9 fraction style, which
+// two more instants settle): cal1 = the reference time in a zone called MST at -07:00,
+// cal2 = the same wall clock in UTC, cal3 = cal1 + 0.111111111 s.
+const (
+	c16CalS    = 1136239445 // 2006-01-02T15:04:05-07:00
+	c16CalSUTC = 1136214245 // 2006-01-02T15:04:05Z
+	c16CalZone = "MST-7"
+)
+
+func c16CalOps() []scen.Op {
+	return []scen.Op{
+		{Op: "write_thru", L: 9, Lvl: 4, Kind: "cal", T: &scen.TimeSpec{S: c16CalS, Zone: c16CalZone}, Msg: "cal1", Tok: "cal1"},
+		{Op: "write_thru", L: 9, Lvl: 4, Kind: "cal", T: &scen.TimeSpec{S: c16CalSUTC, Zone: "UTC"}, Msg: "cal2", Tok: "cal2"},
+		{Op: "write_thru", L: 9, Lvl: 4, Kind: "cal", T: &scen.TimeSpec{S: c16CalS, Ns: 111111111, Zone: c16CalZone}, Msg: "cal3", Tok: "cal3"},
+	}
+}
+
+func c16FlagOp(op string) bool {
+	switch op {
+	case "add_flags", "remove_flags", "save_flags", "restore_flags", "set_flags", "reset_flags":
+		return true
+	}
+	return false
+}
+
+// c16Recover rebuilds the layout from the three calibration texts.
+func c16Recover(r1, r2, r3 string) (string, error) {
+	diff := func(a, b string) (pre int, ma, mb string) {
+		for pre < len(a) && pre < len(b) && a[pre] == b[pre] {
+			pre++
+		}
+		suf := 0
+		for suf < len(a)-pre && suf < len(b)-pre && a[len(a)-1-suf] == b[len(b)-1-suf] {
+			suf++
+		}
+		return pre, a[pre : len(a)-suf], b[pre : len(b)-suf]
+	}
+	lay := []byte(r1)
+	// zone form: cal2 is the same wall clock in UTC, so only the zone part differs
+	if r1 != r2 {
+		pre, _, m2 := diff(r1, r2)
+		if m2 == "Z" {
+			// Z-form: "-07..." in the layout becomes "Z07..."
+			if pre >= len(lay) || lay[pre] != '-' {
+				return "", fmt.Errorf("zone part not understood: %q vs %q", r1, r2)
+			}
+			lay[pre] = 'Z'
+		}
+	}
+	// fraction style: where cal3 (+0.111111111 s) differs from cal1
+	if r1 != r3 {
+		pre, m1, m3 := diff(r1, r3)
+		switch {
+		case m1 == "" && len(m3) >= 2 && strings.Trim(m3[1:], "1") == "" && (m3[0] == '.' || m3[0] == ','):
+			// 9-style: digits appear only when non-zero
+			ins := string(m3[0]) + strings.Repeat("9", len(m3)-1)
+			lay = append(append(append([]byte{}, lay[:pre]...), ins...), lay[pre:]...)
+		case m1 != "" && strings.Trim(m1, "0") == "" && strings.Trim(m3, "1") == "" && len(m1) == len(m3):
+			// 0-style: cal1 already shows the zeros
+		default:
+			return "", fmt.Errorf("fraction part not understood: %q vs %q", r1, r3)
+		}
+	}
+	return string(lay), nil
+}
+
+// semantic facts about a layout, found by formatting (no inspection of the layout text)
+type c16Facts struct {
+	date, clock, zone bool
+	res               time.Duration // smallest step in {1ns, 1us, 1ms, 1s, 1m, 1h} that changes the text
+}
+
+func c16FactsOf(layout string) c16Facts {
+	base := time.Date(2011, 11, 11, 11, 11, 11, 111111111, time.FixedZone("X", 3*3600))
+	f := c16Facts{}
+	f.date = base.Format(layout) != base.AddDate(0, 0, 1).Format(layout) || base.Format(layout) != base.AddDate(1, 1, 0).Format(layout)
+	for _, d := range []time.Duration{time.Nanosecond, time.Microsecond, time.Millisecond, time.Second, time.Minute, time.Hour} {
+		if base.Format(layout) != base.Add(d).Format(layout) {
+			f.res = d
+			break
+		}
+	}
+	f.clock = f.res != 0 && f.res <= time.Second
+	f.zone = base.Format(layout) != base.In(time.FixedZone("Y", -5*3600)).Add(8*time.Hour).Format(layout)
+	return f
 }
 
 func (p *C16) Gen(seed uint64, i int, tier string) *scen.Scenario {
@@ -82,6 +159,9 @@ func (p *C16) Gen(seed uint64, i int, tier string) *scen.Scenario {
 		}
 	}
 	sc.Setup = append(sc.Setup, scen.Op{Op: "remove_flags", S: rem}, scen.Op{Op: "add_flags", S: add})
+	// the calibration logger: logfmt, zone as given, no layout of its own
+	sc.Setup = append(sc.Setup, scen.Op{Op: "new_root", R: 9, Name: "cal", Named: true, Opts: []scen.Op{{Kind: "writer", W: 9}, {Kind: "errwriter", W: 9}, {Kind: "level", Lvl: 8},
+		{Kind: "color", B: []bool{false}}, {Kind: "utc", B: []bool{false}}}})
 	format := scen.Pick(r, []string{"json", "color", "logfmt"})
 	op := scen.Op{Op: "new_root", R: 1, Name: "t", Named: true, Opts: []scen.Op{{Kind: "writer", W: 1}, {Kind: "errwriter", W: 1}, {Kind: "level", Lvl: 8}}}
 	switch format {
@@ -113,6 +193,7 @@ func (p *C16) Gen(seed uint64, i int, tier string) *scen.Scenario {
 		sc.Setup = append(sc.Setup, h)
 	}
 	n := r.Range(3, 10)
+	saved := 0
 	for k := 0; k < n; k++ {
 		t := tok(k + 1)
 		switch c := r.Intn(10); {
@@ -122,7 +203,25 @@ func (p *C16) Gen(seed uint64, i int, tier string) *scen.Scenario {
 			sc.Setup = append(sc.Setup, scen.Op{Op: "clock_jump", I: d, J: int64(r.Intn(1000000000))})
 		case c < 4:
 			// occasionally change a setting mid-way (Set* on the same logger)
-			switch r.Intn(3) {
+			switch r.Intn(5) {
+			case 3:
+				// SaveFlagsAndMod(adding, removing...) ... and its restore function later
+				var fl []string
+				for _, f := range []string{"Ldate", "Ltime", "Lmicroseconds", "LlocalTime"} {
+					switch r.Intn(3) {
+					case 0:
+						fl = append(fl, f)
+					case 1:
+						fl = append(fl, "-"+f)
+					}
+				}
+				sc.Setup = append(sc.Setup, scen.Op{Op: "save_flags", S: fl})
+				saved++
+			case 4:
+				if saved > 0 {
+					sc.Setup = append(sc.Setup, scen.Op{Op: "restore_flags"})
+					saved--
+				}
 			case 0:
 				sc.Setup = append(sc.Setup, scen.Op{Op: "set", L: 1, Kind: "utc", B: []bool{r.Bool()}})
 			case 1:
@@ -171,13 +270,67 @@ func (p *C16) Gen(seed uint64, i int, tier string) *scen.Scenario {
 			sc.Setup = append(sc.Setup, scen.Op{Op: "log", L: 1, Entry: scen.Pick(r, []string{"Info", "Warn", "InfoContext", "LogAttrs", "Infof", "Print"}), Lvl: 4, Msg: "m" + t, Tok: t, Probe: true})
 		}
 	}
+	// calibrate after every change of the flags, before the next probe
+	var withCal []scen.Op
+	dirty := true
+	for _, op := range sc.Setup {
+		if c16FlagOp(op.Op) {
+			dirty = true
+		}
+		if op.Probe && dirty {
+			withCal = append(withCal, c16CalOps()...)
+			dirty = false
+		}
+		withCal = append(withCal, op)
+	}
+	sc.Setup = withCal
 	return sc
+}
+
+// WellFormed: every probe is preceded by a complete calibration made under the flags in force.
+func (p *C16) WellFormed(sc *scen.Scenario) bool {
+	have := 0
+	calLogger := false
+	for i := range sc.Setup {
+		op := &sc.Setup[i]
+		switch {
+		case op.Op == "new_root" && op.R == 9:
+			want := []scen.Op{{Kind: "writer", W: 9}, {Kind: "errwriter", W: 9}, {Kind: "level", Lvl: 8}, {Kind: "color", B: []bool{false}}, {Kind: "utc", B: []bool{false}}}
+			if len(op.Opts) != len(want) {
+				return false
+			}
+			for k := range want {
+				o := op.Opts[k]
+				if o.Kind != want[k].Kind || o.W != want[k].W || o.Lvl != want[k].Lvl || len(o.B) != len(want[k].B) || (len(o.B) == 1 && o.B[0] != want[k].B[0]) {
+					return false
+				}
+			}
+			calLogger = true
+		case op.L == 9 && op.Op != "write_thru", op.R == 9 && op.Op != "new_root":
+			return false // nothing else may touch the calibration logger
+		case c16FlagOp(op.Op):
+			have = 0
+		case op.Op == "write_thru" && op.Kind == "cal":
+			want := c16CalOps()
+			if !calLogger || have >= 3 || op.L != 9 || op.T == nil || *op.T != *want[have].T || op.Tok != want[have].Tok || op.Lvl != 4 || op.Probe {
+				return false
+			}
+			have++
+		case op.Probe:
+			if have != 3 {
+				return false
+			}
+		}
+	}
+	return true
 }
 
 func c16Zone(z string) *time.Location {
 	switch {
 	case z == "" || z == "UTC":
 		return time.UTC
+	case z == c16CalZone:
+		return time.FixedZone("MST", -7*3600)
 	case z[0] == '+' || z[0] == '-':
 		var hh, mm int
 		fmt.Sscanf(z[1:], "%d:%d", &hh, &mm)
@@ -201,6 +354,9 @@ func (p *C16) Check(sc *scen.Scenario, run *orch.Run, env *orch.Env) []orch.Viol
 	ops := indexOps(run)
 	// default flags: Ltime | Lmicroseconds | LlocalTime (LstdFlags)
 	flags := map[string]bool{"Ltime": true, "Lmicroseconds": true, "LlocalTime": true}
+	var savedFlags []map[string]bool
+	calLayout := ""
+	cal := map[string]string{}
 	layout := ""
 	utc := 0
 	format := "color"
@@ -230,12 +386,46 @@ func (p *C16) Check(sc *scen.Scenario, run *orch.Run, env *orch.Env) []orch.Viol
 			out = append(out, orch.Violation{Rule: "C16.panic", Witness: op.Op + op.Entry, Detail: "panicked: " + o.Panic.S})
 			continue
 		}
+		if c16FlagOp(op.Op) {
+			calLayout = ""
+			cal = map[string]string{}
+		}
 		switch op.Op {
 		case "add_flags", "remove_flags":
 			for _, f := range op.S {
 				flags[f] = op.Op == "add_flags"
 			}
+		case "save_flags":
+			cp := map[string]bool{}
+			for k, v := range flags {
+				cp[k] = v
+			}
+			savedFlags = append(savedFlags, cp)
+			// all additions are applied before the removals
+			for _, f := range op.S {
+				if !strings.HasPrefix(f, "-") {
+					flags[f] = true
+				}
+			}
+			for _, f := range op.S {
+				if strings.HasPrefix(f, "-") {
+					flags[f[1:]] = false
+				}
+			}
+		case "restore_flags":
+			if n := len(savedFlags); n > 0 {
+				for k := range flags {
+					delete(flags, k)
+				}
+				for k, v := range savedFlags[n-1] {
+					flags[k] = v
+				}
+				savedFlags = savedFlags[:n-1]
+			}
 		case "new_root":
+			if op.R != 1 {
+				continue
+			}
 			for k := range op.Opts {
 				apply(&op.Opts[k])
 			}
@@ -244,6 +434,54 @@ func (p *C16) Check(sc *scen.Scenario, run *orch.Run, env *orch.Env) []orch.Viol
 				apply(op)
 			}
 		case "log", "write_thru", "handler_handle":
+			if op.Op == "write_thru" && op.Kind == "cal" {
+				if len(o.Writes) != 1 {
+					out = append(out, orch.Violation{Rule: "C16.probe", Witness: "writes", Detail: fmt.Sprintf("calibration record %s produced %d writes", op.Tok, len(o.Writes))})
+					continue
+				}
+				text, ok := timeText(o.Writes[0].P)
+				if !ok {
+					out = append(out, orch.Violation{Rule: "C16.notime", Witness: "format=logfmt", Detail: fmt.Sprintf("no timestamp found in %.120q", o.Writes[0].P)})
+					continue
+				}
+				cal[op.Tok] = text
+				if op.Tok != "cal3" || cal["cal1"] == "" || cal["cal2"] == "" {
+					continue
+				}
+				fl := fmt.Sprintf("date=%v time=%v micro=%v", flags["Ldate"], flags["Ltime"], flags["Lmicroseconds"])
+				L, err := c16Recover(cal["cal1"], cal["cal2"], cal["cal3"])
+				if err == nil {
+					// the recovered layout must reproduce the three calibration texts
+					for k, ts := range c16CalOps() {
+						if got := time.Unix(ts.T.S, ts.T.Ns).In(c16Zone(ts.T.Zone)).Format(L); got != cal[ts.Tok] {
+							err = fmt.Errorf("layout %q recovered from the reference time gives %q for calibration instant %d, logg printed %q", L, got, k+1, cal[ts.Tok])
+							break
+						}
+					}
+				}
+				if err != nil {
+					out = append(out, orch.Violation{Rule: "C16.text", Witness: "layout=false calibration", Detail: fmt.Sprintf("flags %s: the reference time 2006-01-02T15:04:05-07:00 (MST) / the same wall clock in UTC / +0.111111111s were printed as %q / %q / %q, which is not the reference time under any one layout: %v", fl, cal["cal1"], cal["cal2"], cal["cal3"], err)})
+					continue
+				}
+				calLayout = L
+				// what the flags promise about the selected layout (only where the flag names leave no doubt)
+				d, t, m := flags["Ldate"], flags["Ltime"], flags["Lmicroseconds"]
+				f := c16FactsOf(L)
+				if (d || t) && !(d && m && !t) {
+					switch {
+					case f.date != d:
+						out = append(out, orch.Violation{Rule: "C16.flags", Witness: "date " + fl, Detail: fmt.Sprintf("flags %s select layout %q, which shows the date: %v", fl, L, f.date)})
+					case f.clock != t:
+						out = append(out, orch.Violation{Rule: "C16.flags", Witness: "time " + fl, Detail: fmt.Sprintf("flags %s select layout %q, which shows the time of day to the second: %v", fl, L, f.clock)})
+					case t && (f.res <= time.Microsecond) != m:
+						out = append(out, orch.Violation{Rule: "C16.flags", Witness: "microseconds " + fl, Detail: fmt.Sprintf("flags %s select layout %q, whose resolution is %v", fl, L, f.res)})
+					}
+				}
+				if f.clock && !f.zone {
+					out = append(out, orch.Violation{Rule: "C16.flags", Witness: "nozone " + fl, Detail: fmt.Sprintf("flags %s select layout %q, which shows a time of day without its zone: parsing cannot give back the instant", fl, L)})
+				}
+				continue
+			}
 			if !op.Probe {
 				continue
 			}
@@ -285,16 +523,10 @@ func (p *C16) Check(sc *scen.Scenario, run *orch.Run, env *orch.Env) []orch.Viol
 			if layout != "" {
 				cands = []string{layout}
 			} else {
-				for _, c := range c16Exported {
-					if c.date == flags["Ldate"] && c.clock == flags["Ltime"] && c.micro == flags["Lmicroseconds"] {
-						cands = append(cands, c.layout)
-					}
+				if calLayout == "" {
+					continue // no usable calibration under these flags (reported above, or removed from the document)
 				}
-				if len(cands) == 0 {
-					for _, c := range c16Exported {
-						cands = append(cands, c.layout)
-					}
-				}
+				cands = []string{calLayout}
 			}
 			match := false
 			var wants []string
@@ -331,7 +563,7 @@ func (p *C16) Classify(sc *scen.Scenario, run *orch.Run) (string, bool) {
 	for i := range sc.Setup {
 		op := &sc.Setup[i]
 		switch op.Op {
-		case "add_flags", "remove_flags":
+		case "add_flags", "remove_flags", "save_flags", "restore_flags":
 			fmt.Fprintf(&sb, "%s%v;", op.Op, op.S)
 		case "new_root":
 			for _, o := range op.Opts {
